@@ -104,3 +104,16 @@ chk('C12', 'model_checking',
     'the attached objects, reported new/deleted lists consistent with the live objects. Scenarios are TLC-enumerated: every set of 3..4 pin terminals of three shapes x junction position x improvement options x follow-up.',
     'Orthogonal routing only (hyperedge rerouting is orthogonal). F12 and F28 are known findings.',
     'TLA+ declarative tree/terminal specification; TLC-enumerated scenarios replayed; record validation', '4/C12')
+
+chk('C18', 'model_checking',
+    'SepCo.tla gives SepPair a meaning (sign bit kept apart from magnitude so that -0 is representable), defines the eight symmetries on placements and TLC checks they satisfy the relations of D4; the full '
+    'table of the real SepPair::addSep / transform (160 rows x 7 transforms, their 49 compositions in the thorough tier, 4-fold/2-fold powers), the SepMatrix path under both id orders and the generated vpsc '
+    'constraints are checked row by row against ALL placements of two sized nodes in a window: Sat(p, c) <=> Sat(T(p), T_impl(c)). Tglf.tla defines equivalence of abstract graphs for the round trip.',
+    'Gaps multiples of 1/4, even sizes. Negative finite gaps are checked for commutation only (their documented meaning is not stated).',
+    'TLA+ semantic specification of constraints and symmetries; exhaustive table re-derivation; record validation for the round trip', '4/C18')
+chk('C19', 'model_checking',
+    'Peel.tla: peeling as a nondeterministic process (strip any node of degree one); TLC shows confluence -- every maximal run ends in the 2-core -- for every simple connected graph on 5 (quick) / 6 (thorough) '
+    'nodes and every stripping order, enumerates those graphs for replay, and judges the decomposition the library returns (core = that unique 2-core; trees acyclic, connected, sharing only their roots with the '
+    'core; every edge in exactly one part), connected components (partition of nodes and edges) and symmetric tree layouts (no two nodes on one point) for those and seeded random graphs up to 60 nodes.',
+    'peel() only on connected graphs (the statement). Planarisation clause: see Planar stage / not_applicable note in DESIGN.',
+    'TLA+ confluence model of peeling; TLC-enumerated graphs replayed; record validation', '4/C19')
